@@ -404,7 +404,11 @@ def callbackApi (cfg : Cfg) (fid : Fid) (status : Status) : Nat → M Unit
       callbackOne cfg fid status (fun run => runFn cfg "callback" run run fuel true))
 end
 
-def fuelDefault : Nat := 6
+/-- nesting budget of the mutual recursion runFn / callbackApi. Every nested level consumes at least one user-function outcome
+of the operation's environment and the harness never supplies more than 6 per operation; each level costs at most 3 units of
+fuel, so 40 is never exhausted on a co-simulated history (6 was: three-deep re-entrant callbacks ran out, a false alarm of
+the thorough tier). -/
+def fuelDefault : Nat := 40
 
 /-! ## error counting (`maybePause`, internal/errorcounter) -/
 
